@@ -307,7 +307,9 @@ impl ChessMove {
             };
         }
 
-        let ep = if let Some(s) = move_text.get(cur_index..) {
+        // the optional " e.p." suffix carries no information: en-passant captures are
+        // recognised from the position
+        let _ep = if let Some(s) = move_text.get(cur_index..) {
             s == " e.p."
         } else {
             false
@@ -352,17 +354,14 @@ impl ChessMove {
                 return Err(error);
             }
 
-            // takes is complicated, because of e.p.
-            if !takes {
-                if board.piece_on(m.get_dest()).is_some() {
-                    continue;
-                }
-            }
+            // takes is complicated, because of e.p.: a pawn that changes file onto an empty
+            // square captures en passant
+            let captures = board.piece_on(m.get_dest()).is_some()
+                || (moving_piece == Piece::Pawn
+                    && m.get_source().get_file() != m.get_dest().get_file());
 
-            if !ep && takes {
-                if board.piece_on(m.get_dest()).is_none() {
-                    continue;
-                }
+            if takes != captures {
+                continue;
             }
 
             found_move = Some(m);
